@@ -55,6 +55,11 @@ CLAIMED = {
    note="Assumed: api.IoBuffer write contracts (append semantics), header.EncodeHeader/GetHeaderEncodeLength (ghost encoded size). Not covered yet: byte-level round trip decode(encode(x)) == x, rawData freshness of the decoders, dubbo/dubbothrift/tars encoders, HTTP/1 URI rebuild, HTTP/2, TCP relay.",
    technique="contract-based deductive verification (WP over go/ssa, SMT) with byte-level memory model",
    design="5/C01"),
+ "C14": dict(
+   text="Proof level on the chain-iteration kernel: RunReceiverFilter / RunSenderFilter are verified, for every chain content, start index, phase and every sequence of filter answers, against ghost bookkeeping of which filter's OnReceive/Append was invoked, how often and with which sequence stamp: filters run in configured order, each at most once per pass and only from the resume point on with the matching phase; a pass stops at the first non-Continue answer; ReMatchRoute/ReChooseHost leave the index at the requesting filter (no later filter ran), every other outcome resets it; processError turns a pending local reply into a jump to the send-filter phase (never an upstream phase) and drops the retry state.",
+   note="Assumed: filters answer one of the five documented statuses and neither they nor the status handler touch the chain's bookkeeping (contract on the interface / function parameter); filter objects in one chain are pairwise distinct. Not covered: the phase machine of downStream.receive as a whole, chooseHost short-circuits, the three concrete filters, goroutine hand-off.",
+   technique="contract-based deductive verification (WP over go/ssa, SMT) with ghost call counters and sequence stamps",
+   design="5/C14"),
 }
 NA = {
  "C11": "quantifies over the arrival time of a signal relative to in-flight requests across two processes (fd passing, drain timers): crash points and schedules of the whole runtime; no function whose pre/postcondition states it (DESIGN.md section 6)",
